@@ -30,13 +30,13 @@ RULE = ("Hypothesis builds an EAM or Finnis-Sinclair model (as C03/C04) with gri
         "elements with an undeclared or reversed pair, or n % 4 != 0; distinct = canonical JSON.")
 ASSUMPTIONS = [
     "rows are taken at the float the property's own row formula gives (k*delpot; i*step; i*cutoff/(nr-1)); a row that sits EXACTLY on a range boundary is compared (the marker decides its side), a row within 64 ulp of a boundary without being on it is not (nothing can be said about which side a last-bit difference puts it on)",
-    "block order inside the file is not constrained; %f prints six decimals (absolute tolerance 1e-6 + modelled rounding)",
+    "block order inside the file is not constrained; numbers are printed with 17 significant digits (since F51; tolerance: one unit of the last printed place + modelled rounding)",
     "the 'dens A B' block of an EEAM file is the density at an A site due to a B neighbour (as the repository's "
     "skipped DL_POLY tests expect); C04 checks that routing against the consumer's rule in detail",
 ]
 REQUIRED = {"kind:eam": 40, "kind:fs": 40, "n%4!=0": 40, "zero_filled_pair": 20, "reversed_pair": 20,
             "route:function": 15, "route:class": 15, "route:potable": 15, "rewrite:2_writes": 2, "break_on_row": 5}
-FMT = ("f", 6)
+FMT = ("e", 16)
 
 
 @st.composite
